@@ -556,14 +556,15 @@ def dualPart (fx : Bool) (pol : Policy) (binary : Bool) (j i : Nat) (inp : Bytes
     let v := runVec binary .dbl pol.dual j inp
     Result.cons (.dual binary v.1) (afterVec v.1 fun _ => afterDual fx pol binary j i v.2)
 
-/-- `OnAMPLOptions` verdict and the 'Wrong NumVars/NumAlgCons' checks:
+/-- `OnAMPLOptions` verdict and the 'Wrong NumVars/NumAlgCons' checks (`fm = true`: with
+repo_patches/C14-badoptions-message.diff the Bad_Options return carries a message):
 (j = #duals, i = #primals, rest of input) or the error result -/
-def preCheck (nVars nCons : Nat) (pol : Policy) (binary : Bool) (o : Option Opts) (inp : Bytes) :
+def preCheck (fm : Bool) (nVars nCons : Nat) (pol : Policy) (binary : Bool) (o : Option Opts) (inp : Bytes) :
     Except Result (Nat × Nat × Bytes) :=
   match o with
   | none => .ok (nCons, nVars, inp)
   | some o =>
-    if pol.optRv ≠ 0 then .error ⟨.badOptions, [], false⟩ else
+    if pol.optRv ≠ 0 then .error ⟨.badOptions, [], fm⟩ else
     let nv := o.z 3
     let nc := o.z 1
     if nv > nVars ∨ nv < 0 then .error (err .badFormat) else
@@ -580,9 +581,9 @@ def optEvent (o : Option Opts) (r : Result) : Result :=
   | some o => Result.cons (.options o.opts o.needVbtol o.vbtol) r
 
 /-- everything after the message and options blocks were read -/
-def body (fx : Bool) (nVars nCons : Nat) (pol : Policy) (binary : Bool) (o : Option Opts) (inp : Bytes) : Result :=
+def body (fx fm : Bool) (nVars nCons : Nat) (pol : Policy) (binary : Bool) (o : Option Opts) (inp : Bytes) : Result :=
   optEvent o <|
-    match preCheck nVars nCons pol binary o inp with
+    match preCheck fm nVars nCons pol binary o inp with
     | .error r => r
     | .ok (j, i, inp) => dualPart fx pol binary j i inp
 
@@ -596,7 +597,7 @@ def skipNl : Bytes → Bytes
   | [] => []
   | c :: cs => if c = 10 ∨ c = 13 then skipNl cs else c :: cs
 
-def readText (fx : Bool) (nVars nCons : Nat) (pol : Policy) (inp : Bytes) : Result :=
+def readText (fx fm : Bool) (nVars nCons : Nat) (pol : Policy) (inp : Bytes) : Result :=
   match msgText (inp.length + 1) inp ⟨[], 0, true⟩ with
   | .error c => err c
   | .ok (st, inp) =>
@@ -615,9 +616,9 @@ def readText (fx : Bool) (nVars nCons : Nat) (pol : Policy) (inp : Bytes) : Resu
       | _ => .ok (none, inp)
     match hdr with
     | .error c => err c
-    | .ok (o, inp) => msgEvent false st (body fx nVars nCons pol false o inp)
+    | .ok (o, inp) => msgEvent false st (body fx fm nVars nCons pol false o inp)
 
-def readBin (fx : Bool) (nVars nCons : Nat) (pol : Policy) (inp : Bytes) : Result :=
+def readBin (fx fm : Bool) (nVars nCons : Nat) (pol : Policy) (inp : Bytes) : Result :=
   match msgBin (inp.length + 1) inp ⟨[], 0, true⟩ with
   | .error c => err c
   | .ok (st, inp) =>
@@ -628,12 +629,12 @@ def readBin (fx : Bool) (nVars nCons : Nat) (pol : Policy) (inp : Bytes) : Resul
       if L2 ≤ 24 ∧ L2 % 4 = 0 then
         match optsBin L inp with
         | .error c => err c
-        | .ok (o, inp) => msgEvent true st (body fx nVars nCons pol true (some o) inp)
+        | .ok (o, inp) => msgEvent true st (body fx fm nVars nCons pol true (some o) inp)
       else if L ≠ u32 (nCons * 8) then err .badFormat
-      else msgEvent true st (body fx nVars nCons pol true none inp)
+      else msgEvent true st (body fx fm nVars nCons pol true none inp)
 
 /-- `mp::ReadSOLFile` on a file with the given contents (the file exists) -/
-def readSol (fx : Bool) (nVars nCons : Nat) (pol : Policy) (bytes : Bytes) : Result :=
+def readSol (fx fm : Bool) (nVars nCons : Nat) (pol : Policy) (bytes : Bytes) : Result :=
   match readU32 bytes with
   | some (6, r) =>
     (match fread 6 r with
@@ -642,7 +643,7 @@ def readSol (fx : Bool) (nVars nCons : Nat) (pol : Policy) (bytes : Bytes) : Res
        if w ≠ str "binary" then err .badFormat else
        match readU32 r2 with
        | none => err .badFormat
-       | some (L, r3) => if L ≠ 6 then err .badFormat else readBin fx nVars nCons pol r3)
-  | _ => readText fx nVars nCons pol bytes
+       | some (L, r3) => if L ≠ 6 then err .badFormat else readBin fx fm nVars nCons pol r3)
+  | _ => readText fx fm nVars nCons pol bytes
 
 end MpVerif.C14
